@@ -37,6 +37,11 @@ func descOrdUTXO(o ordUTXO) string {
 func parseOrdUTXO(s string) ordUTXO {
 	f := strings.Split(s, ":")
 	u := &bt.UTXO{TxID: mustHex(f[0]), Vout: uint32(mustU(f[1], 32)), LockingScript: optScr(f[2]), Satoshis: mustU(f[3], 64)}
+	// whatever sequence number the wallet's record of the output carries (derived from the txid, so that a replay sees the
+	// same): the flows build final inputs regardless, and what the seller signed must be what the completed tx carries
+	if len(u.TxID) > 0 {
+		u.SequenceNumber = []uint32{0, 5, 0xfffffffe, 0xffffffff}[int(u.TxID[0])%4]
+	}
 	priv := mustHex(f[4])
 	pk, _ := bec.PrivKeyFromBytes(bec.S256(), priv)
 	var ul bt.Unlocker = &unlocker.Simple{PrivateKey: pk}
